@@ -25,8 +25,9 @@ def mask_msf(data):
 
 
 class Job:
-    def __init__(self, kind, lines, files_out, descr, noise=()):
+    def __init__(self, kind, lines, files_out, descr, noise=(), pre=()):
         self.kind = kind
+        self.pre = list(pre)        # driver-only lines ({P} = preload slot) executed at the start of the history: the application's input arrays exist before its calls
         self.lines = lines          # script lines with {S} slot placeholder and {O<k>} output placeholders
         self.files_out = files_out  # list of (placeholder, fmt)
         self.descr = descr
@@ -34,11 +35,11 @@ class Job:
                                     # no trace: the solo replay omits them and the digest ignores their records
 
 
-def make_seq_file(ck, rng, kind=None, equal=False, n=None, long=False):
+def make_seq_file(ck, rng, kind=None, equal=False, n=None, long=False, L=None):
     kind = kind or rng.choice(["dna", "protein"])
     alpha = gen.DNA if kind == "dna" else gen.AA
     n = n or rng.randint(2, 25)
-    L = rng.randint(8, 150) if not long else rng.choice([1030, 1100, 1600])
+    L = L or (rng.randint(8, 150) if not long else rng.choice([1030, 1100, 1600]))
     if equal:
         root = gen.rand_seq(rng, L, alpha)
         seqs = [gen.mutate(rng, root, alpha, 0.15, 0.0)[:L].ljust(L, alpha[0]) for _ in range(n)]
@@ -49,7 +50,31 @@ def make_seq_file(ck, rng, kind=None, equal=False, n=None, long=False):
     return kind, seqs
 
 
-def gen_job(ck, rng):
+def gen_job(ck, rng, shape=None):
+    if shape is not None and rng.random() < 0.75:
+        # "same shape" histories: successive calls work on sequences of one common length and kind (batches of reads of one amplicon / one domain),
+        # small and >= 100-sequence inputs alternating, mostly one thread: objects freed by one call are handed out again, same size, to the next
+        kind, L = shape
+        n = rng.choice([2, 2, 3, 5, 100, 110, 120, 130])
+        _, seqs = make_seq_file(ck, rng, kind=kind, equal=True, n=n, L=L)
+        if n >= 100:
+            # two or three unrelated families: which cluster a sequence falls into decides the guide tree
+            seqs = []
+            nf = rng.choice([2, 2, 3])
+            for f_ in range(nf):
+                seqs += make_seq_file(ck, rng, kind=kind, equal=True, n=n // nf + (1 if f_ < n % nf else 0), L=L)[1]
+        if rng.random() < 0.5 and n < 100:
+            seqs[rng.randrange(len(seqs))] += gen.rand_seq(rng, rng.randint(1, 5), gen.DNA if kind == "dna" else gen.AA_ONLY)
+        ty = kal.TYPES[rng.choice(kal.ADMISSIBLE[kind])]
+        nt = rng.choice([1, 1, 1, 2, 4])
+        if rng.random() < 0.5:
+            f = ck.tmp(".seqs")
+            common.write_bytes(f, "".join(s_ + "\n" for s_ in seqs))
+            return Job("arr_same_shape", ["arrp {P} %d %d -1 -1 -1" % (nt, ty)], [], {"kind": kind, "n": len(seqs), "L": L, "threads": nt}, pre=["preload {P} %s" % f])
+        fa = ck.tmp(".fa")
+        common.write_bytes(fa, fmt.write_fasta(list(zip(gen.names(rng, len(seqs), "s"), seqs))))
+        return Job("rrwf_same_shape", ["read {S} %s" % fa, "run {S} %d %d -1 -1 -1" % (nt, ty), "dump {S}", "write {S} fasta {O0}", "free {S}"], [("{O0}", "fasta")],
+                   {"kind": kind, "n": len(seqs), "L": L, "threads": nt})
     k = rng.choice(["arr", "arr_equal", "rrwf", "rrwf", "rrwf_multi", "cmp", "rejected", "churn", "churn", "reread", "reread", "big_threads", "failed_read", "one_record",
                     "failed_calls_between", "failed_calls_between"])
     if k == "failed_calls_between":
@@ -147,11 +172,11 @@ def gen_job(ck, rng):
     return Job("rejected", ["read {S} %s" % fa, "run {S} 2 %d -1 -1 -1" % wrong, "free {S}"], [], {"kind": kind, "wrong_type": wrong})
 
 
-def instantiate(ck, job, slot, slot2):
+def instantiate(ck, job, slot, slot2, pslot=0):
     outs = {}
     lines = []
     for ln in job.lines:
-        ln = ln.replace("{S}", str(slot)).replace("{T}", str(slot2))
+        ln = ln.replace("{S}", str(slot)).replace("{T}", str(slot2)).replace("{P}", str(pslot))
         for ph, F in job.files_out:
             if ph in ln:
                 if ph not in outs:
@@ -165,6 +190,8 @@ def digest(records, outs, files_out):
     """history-independent digest of a job: op records without the op counter / slot numbers + written bytes"""
     h = []
     for r in records:
+        if r.get("op") in ("preload", "unload"):
+            continue
         r = dict(r)
         r.pop("n", None)
         r.pop("slot", None)
@@ -184,20 +211,29 @@ def digest(records, outs, files_out):
 def run_history(ck, paths, hidx, env, tier):
     rng = ck.rng.__class__(ck.seed * 217645177 + hidx)
     njobs = rng.randint(5, 25 if tier == "quick" else 60)
-    jobs = [gen_job(ck, rng) for _ in range(njobs)]
+    shape = None
+    if hidx % 3 == 1:
+        shape = (rng.choice(["dna", "protein"]), rng.choice([40, 64, 120, 196, 255, 256, 300]))
+        ck.count("histories_of_same_shape_calls")
+    jobs = [gen_job(ck, rng, shape) for _ in range(njobs)]
     # interleave: up to 3 jobs alive; each alive job owns two slots
     script = []
     isnoise = []   # per script line: a call that is expected to fail and to leave no trace
     owner = []     # per script line: job index
     outs_all = {}
     alive = []     # (job index, remaining lines)
-    free_slots = [(0, 1), (2, 3), (4, 5)]
+    free_slots = [(0, 1), (2, 3), (4, 5)] if shape is None or rng.random() < 0.3 else [(0, 1)]   # same-shape histories mostly run call after call
     nxt = 0
     max_alive = 0
+    for ji_, j_ in enumerate(jobs):
+        for ln in j_.pre:
+            script.append(ln.replace("{P}", str(ji_ % 64)))
+            owner.append(-2)
+            isnoise.append(False)
     while nxt < len(jobs) or alive:
         while nxt < len(jobs) and free_slots and (not alive or rng.random() < 0.6):
             s = free_slots.pop()
-            lines, outs = instantiate(ck, jobs[nxt], s[0], s[1])
+            lines, outs = instantiate(ck, jobs[nxt], s[0], s[1], nxt % 64)
             outs_all[nxt] = outs
             alive.append([nxt, lines, s, 0])
             nxt += 1
@@ -210,6 +246,11 @@ def run_history(ck, paths, hidx, env, tier):
         if not a[1]:
             alive.remove(a)
             free_slots.append(a[2])
+    for ji_, j_ in enumerate(jobs):
+        if j_.pre:
+            script.append("unload %d" % (ji_ % 64))
+            owner.append(-2)
+            isnoise.append(False)
     script.append("live")
     owner.append(-1)
     isnoise.append(False)
@@ -236,6 +277,9 @@ def run_history(ck, paths, hidx, env, tier):
     if paths["variant"] in ("rel", "noomp", "clangomp"):
         ck.count("histories_with_allocation_accounting")
         ck.cmax("peak_live_blocks", live["peak"])
+        if env.get("KV_ALLOC_SHUFFLE"):
+            ck.count("histories_with_the_hostile_allocator")
+            ck.count("allocations_served_with_a_recycled_block_of_random_choice", max(0, live.get("pool_hits", 0)))
         ck.count("allocations_observed", live["total"])
         if live["blocks"] != 0:
             ck.violation("live-blocks-after-free:%s" % ",".join(sorted(set(j.kind for j in jobs if j.kind in ("rejected",))) or ["-"]),
@@ -246,7 +290,7 @@ def run_history(ck, paths, hidx, env, tier):
         if job.kind == "churn":
             continue
         lines, outs = instantiate(ck, job, 0, 1)
-        lines = [ln for i, ln in enumerate(lines) if i not in job.noise]
+        lines = [ln.replace("{P}", "0") for ln in job.pre] + [ln for i, ln in enumerate(lines) if i not in job.noise] + (["unload 0"] if job.pre else [])
         r2, recs2 = common.kvdrv(paths, lines, env=env, scratch=ck.scratch, timeout=600, cpu=300)
         c2 = dict(ctx, job=ji, job_kind=job.kind, job_descr=job.descr, solo_script=lines)
         if ck.proc_violations(r2, c2, allow_rcs=(0,)):
@@ -274,7 +318,7 @@ def run(ck, tier):
     rel = build("rel")
     asan = build("asan")
     sc = getattr(ck, "scale", 1.0)
-    nh = int((24 if tier == "quick" else 300) * sc)
+    nh = int((60 if tier == "quick" else 400) * sc)
     jobs = []
     for i in range(nh):
         if i % 3 == 2:
@@ -283,11 +327,15 @@ def run(ck, tier):
             # mostly without MALLOC_PERTURB_: glibc's perturbation also overwrites freed blocks and so erases exactly the stale data
             # a history leaves behind; a fresh process then sees zero pages where the history sees recycled memory
             pv = [None, None, None, "85", None, "170"][i % 6]
-            jobs.append((rel, i, {"MALLOC_PERTURB_": pv} if pv else {}))
+            env = {"MALLOC_PERTURB_": pv} if pv else {}
+            if pv is None and i % 2 == 1:
+                # hostile allocator (rt/verif_alloc.c): freed blocks come back, chosen at random among the fitting ones, with their old contents
+                env["KV_ALLOC_SHUFFLE"] = str(ck.seed * 1000 + i)
+            jobs.append((rel, i, env))
     common.pmap(lambda j: run_history(ck, j[0], j[1], j[2], tier), jobs, workers=8)
     ck.rule = ("histories of 5..25 (thorough: ..60) jobs executed by one process with up to three msa-owning jobs interleaved operation by operation: kalign() on arrays (incl. "
                "equal-length sequences), read(1-2 files)->run->dump->write(fmt)->free, write->free->re-read, compare of two runs, rejected calls (type of the other kind, missing / unrecognisable / one-record input), "
-               ">= 100 sequences with 8-16 threads, heap-churn jobs that leave patterned garbage in freed blocks; thread counts 64 -> 1 -> 8 and DNA <-> protein change from job to "
+               ">= 100 sequences with 8-16 threads, heap-churn jobs that leave patterned garbage in freed blocks, every third history made of same-shape calls (one common sequence length and kind, 2..5 and 100..130 sequences alternating, call after call) so that freed objects are reused at once by the next call (input arrays pre-loaded by the driver), a third of the -O2 histories under a hostile allocator that hands freed blocks back at random with their old contents; thread counts 64 -> 1 -> 8 and DNA <-> protein change from job to "
                "job; -O2 build with allocation accounting (mostly without MALLOC_PERTURB_, which would erase the stale heap contents a history leaves behind) and the ASan build. Each job is replayed alone in a fresh process; digests must "
                "be equal; live blocks after the last free must be 0. Distinct = (history, job).")
     ck.assumptions = ["MSF header line (time stamp, file base name) is masked before comparing written files", "allocations inside libgomp are not counted (the OpenMP runtime's own pool)"]
